@@ -107,6 +107,7 @@ def setExit (E : Nat) : Option LoopCtx → Option LoopCtx
   | none => none
   | some l => some { l with exit := E }
 
+theorem setExit_some (E : Nat) (l : LoopCtx) : setExit E (some l) = some ⟨l.iter, E, l.scopes⟩ := rfl
 @[simp] theorem pushScope_setExit (k : ScopeKind) (E : Nat) (lc : Option LoopCtx) :
     pushScope k (setExit E lc) = setExit E (pushScope k lc) := by cases lc <;> rfl
 @[simp] theorem setExit_setExit (E E' : Nat) (lc : Option LoopCtx) : setExit E (setExit E' lc) = setExit E lc := by
@@ -774,6 +775,34 @@ theorem Patched.cast2 {E E' b b' ps L0 LE} (h : Patched E b ps L0 LE) (hE : E = 
     Patched E' b' ps L0 LE := by
   subst hE; subst hb; exact h
 
+/-- the code in front of the loop body (copy of the first part of the `for` case of `cStmt`) -/
+def cForPrefix (target : Target) (iter : Expr) (filter : Option Expr) (g : CG) : CG :=
+  match filter with
+  | some cond =>
+    let g := g.add (.loadConst (.int 0))
+    let g := (cExpr iter g).startForLoop false
+    let g := cTarget target (g.add .dupTop)
+    let g := (cExpr cond g).startIf
+    let g := ((g.add .swap).add (.loadConst (.int 1))).add .add
+    let g := (g.startElse.add .discardTop).endIf
+    let g := (g.endForLoop false).add (.buildList none)
+    g.startForLoop true
+  | none => (cExpr iter g).startForLoop true
+
+theorem cStmt_for (target : Target) (iter : Expr) (filter : Option Expr) (body els : List Stmt) (g : CG) :
+    cStmt (.forS target iter filter body els) g =
+      (match els with
+        | [] => (cBlock body (cTarget target (cForPrefix target iter filter g))).endForLoop false
+        | _ :: _ => (cBlock els ((cBlock body (cTarget target (cForPrefix target iter filter g))).endForLoop true).startIf).endIf) := by
+  cases filter <;> cases els <;> simp only [cStmt, cForPrefix]
+
+theorem cForPrefix_eq (t : Target) (iter : Expr) (flt : Option Expr) (g : CG) (hi : simpleExpr iter = true)
+    (hc : ∀ c, flt = some c → simpleExpr c = true) :
+    cForPrefix t iter flt g = (g.extend (relForIter t iter flt g.next g.aux)).startForLoop true := by
+  cases flt with
+  | none => simp only [cForPrefix, relForIter]; rw [cExpr_eq_rel iter g hi]
+  | some c => simp only [cForPrefix]; rw [filter_prefix_eq t iter c g hi (hc c rfl)]
+
 mutual
 theorem cStmt_eq_rel : ∀ (st : Stmt) (g : CG) (lc : Option LoopCtx), simpleStmt lc.isSome st = true →
     Compat g.pending lc →
@@ -812,8 +841,68 @@ theorem cStmt_eq_rel : ∀ (st : Stmt) (g : CG) (lc : Option LoopCtx), simpleStm
       endScope_withBreaks, add_withBreaks]
     congr 1 <;>
     simp [CG.startScope, CG.endScope, CG.extend, CG.add, CG.next, Nat.add_assoc, Nat.add_comm]
-  | .forS t iter flt body els, g, lc, h, hc => by
-    sorry
+  | .forS t iter flt body [], g, lc, h, hc => by
+    have hs : (simpleExpr iter = true ∧ (∀ c, flt = some c → simpleExpr c = true)) ∧ simpleBlock true body = true := by
+      cases flt <;> simp [simpleStmt, simpleBlock] at h <;> simp [h]
+    rw [cStmt_for, cForPrefix_eq t iter flt g hs.1.1 hs.1.2]
+    simp only
+    rw [cTarget_eq_rel,
+      cBlock_eq_rel body _ (some ⟨g.next + (relForIter t iter flt g.next g.aux).1.length + 1, 0, []⟩) hs.2
+        ⟨by simp, by simp⟩]
+    simp only [CG.next_extend, next_startFor_ext, aux_startFor_ext, CG.extend_aux, setExit, relStmt]
+    have hp := (relBlock_patched body (g.next + (relForIter t iter flt g.next g.aux).1.length + 2 + (relTarget t).length)
+      (relForIter t iter flt g.next g.aux).2 (some ⟨g.next + (relForIter t iter flt g.next g.aux).1.length + 1, 0, []⟩)
+      (g.next + (relForIter t iter flt g.next g.aux).1.length + 2 + (relTarget t).length +
+        (relBlock body (g.next + (relForIter t iter flt g.next g.aux).1.length + 2 + (relTarget t).length)
+          (relForIter t iter flt g.next g.aux).2
+          (some ⟨g.next + (relForIter t iter flt g.next g.aux).1.length + 1, 0, []⟩)).1.1.length + 1))
+    simp only [setExit] at hp
+    generalize relForIter t iter flt g.next g.aux = Ri at hp ⊢
+    generalize relBlock body (g.next + Ri.1.length + 2 + (relTarget t).length) Ri.2
+      (some ⟨g.next + Ri.1.length + 1, 0, []⟩) = R0 at hp ⊢
+    generalize relBlock body (g.next + Ri.1.length + 2 + (relTarget t).length) Ri.2
+      (some ⟨g.next + Ri.1.length + 1, g.next + Ri.1.length + 2 + (relTarget t).length + R0.1.1.length + 1, []⟩) = RE at hp ⊢
+    obtain ⟨hp1, hp2, hp3⟩ := hp
+    rw [CG.extend_extend, for_block_brk g Ri _ R0.2 (relTarget t ++ RE.1.1) false
+      ((Patched.pre (b := g.next + Ri.1.length + 2) (relTarget t) hp1).cast2
+        (by simp only [List.length_append]; omega) rfl)]
+    simp [hp2, Nat.add_assoc]
+  | .forS t iter flt body (e0 :: es), g, lc, h, hc => by
+    have hs : ((simpleExpr iter = true ∧ (∀ c, flt = some c → simpleExpr c = true)) ∧ simpleBlock true body = true) ∧
+        simpleBlock lc.isSome (e0 :: es) = true := by
+      cases flt <;> simp [simpleStmt] at h <;> simp [h]
+    rw [cStmt_for, cForPrefix_eq t iter flt g hs.1.1.1 hs.1.1.2]
+    simp only
+    rw [cTarget_eq_rel,
+      cBlock_eq_rel body _ (some ⟨g.next + (relForIter t iter flt g.next g.aux).1.length + 1, 0, []⟩) hs.1.2
+        ⟨by simp, by simp⟩]
+    simp only [CG.next_extend, next_startFor_ext, aux_startFor_ext, CG.extend_aux, setExit_some, relStmt]
+    have hp := (relBlock_patched body (g.next + (relForIter t iter flt g.next g.aux).1.length + 2 + (relTarget t).length)
+      (relForIter t iter flt g.next g.aux).2 (some ⟨g.next + (relForIter t iter flt g.next g.aux).1.length + 1, 0, []⟩)
+      (g.next + (relForIter t iter flt g.next g.aux).1.length + 2 + (relTarget t).length +
+        (relBlock body (g.next + (relForIter t iter flt g.next g.aux).1.length + 2 + (relTarget t).length)
+          (relForIter t iter flt g.next g.aux).2
+          (some ⟨g.next + (relForIter t iter flt g.next g.aux).1.length + 1, 0, []⟩)).1.1.length + 1))
+    simp only [setExit] at hp
+    generalize relForIter t iter flt g.next g.aux = Ri at hp ⊢
+    generalize relBlock body (g.next + Ri.1.length + 2 + (relTarget t).length) Ri.2
+      (some ⟨g.next + Ri.1.length + 1, 0, []⟩) = R0 at hp ⊢
+    generalize relBlock body (g.next + Ri.1.length + 2 + (relTarget t).length) Ri.2
+      (some ⟨g.next + Ri.1.length + 1, g.next + Ri.1.length + 2 + (relTarget t).length + R0.1.1.length + 1, []⟩) = RE at hp ⊢
+    obtain ⟨hp1, hp2, hp3⟩ := hp
+    rw [CG.extend_extend, for_block_brk g Ri _ R0.2 (relTarget t ++ RE.1.1) true
+      ((Patched.pre (b := g.next + Ri.1.length + 2) (relTarget t) hp1).cast2
+        (by simp only [List.length_append]; omega) rfl),
+      cBlock_eq_rel (e0 :: es) _ lc hs.2 (Compat_of_view (by simp) (by simp) hc), endIf_withBreaks]
+    simp only [next_startIf_ext, aux_startIf_ext]
+    rw [if_block_noelse]
+    simp [hp1.length_eq, hp2, Nat.add_assoc]
+    have hb : g.next + (Ri.1.length + ((relTarget t).length + (R0.1.1.length + 6))) =
+        g.next + (Ri.1.length + (2 + ((relTarget t).length + (R0.1.1.length + 4)))) := by omega
+    rw [hb]
+    have hj : ∀ n, g.next + (Ri.1.length + ((relTarget t).length + (R0.1.1.length + (6 + n)))) =
+        g.next + (Ri.1.length + (2 + ((relTarget t).length + (R0.1.1.length + (4 + n))))) := by intro n; omega
+    rw [hj]
   | .setBlock x filters body, g, lc, h, hc => by
     have hs : simpleFilters filters = true ∧ simpleBlock (pushScope .capture lc).isSome body = true := by
       simpa [simpleStmt] using h
